@@ -364,7 +364,7 @@ def shrink_case(module, part_name: str, clause: str, case, known_key, budget_s: 
     def candidates(c):
         # structure-preserving only: drop list elements, simplify numbers; never change types
         if isinstance(c, list):
-            if len(c) > 1 or (c and isinstance(c[0], dict)):
+            if c and all(isinstance(e, dict) for e in c):  # lists of records (operations, models, versions) may lose elements
                 for i in range(len(c)):
                     yield c[:i] + c[i + 1 :]
             for i, v in enumerate(c):
